@@ -230,6 +230,7 @@ pub fn run_shared(ctx: &Ctx, sub: &str, which: &[&str]) -> SubReport {
                 if do16 {
                     oracle_offsets(sub, &p, rank, &case, acc);
                 }
+                oracle_file_api(sub, &it.bytes, rank, &case, acc);
                 acc.sample(rank, || json!({"corpus_item": it.desc["spec"]["name"], "history": it.desc["history"], "bytes": it.bytes.len()}));
             } else {
                 acc.viol(Violation::new(sub, "a package emitted by the builder/signer is rejected by the parser", case()).sig("clause", "emitted-package-rejected").rank(rank));
